@@ -164,7 +164,7 @@ from ..monitors import run_ct_off, run_ct_on                       # noqa: E402
 from ..refsem import step_at                                       # noqa: E402
 
 Q = Fraction(1, 4)
-BFUT = Profile(un_temp=F.UN_PAST, bin_temp=F.BIN_PAST, tbin=('since', 'until'), max_depth=3, max_bound=3, no_future_under_past=True)
+BFUT = Profile(un_temp=F.UN_PAST, bin_temp=F.BIN_PAST, tbin=('since', 'until'), max_depth=3, max_bound=3)
 LAWS_DENSE = ('not-ev[]', 'not-once[]', 'not-once', 'implies', 'ev-ev', 'once-once')
 LAWS_DENSE_ON = ('not-once[]', 'not-once', 'implies', 'once-once')
 LAWS_PASTIFIED = ('not-ev[]', 'ev-ev', 'implies', 'not-once[]', 'once-once')
@@ -219,8 +219,6 @@ def check2(case):
     if kind == 'dt_on_past':
         if F.horizon(lhs) is None or F.horizon(lhs) != F.horizon(rhs):
             return DISCARD('horizons', labels)
-        if law in ('not-once[]', 'once-once') and F.has_future(p):
-            return DISCARD('past-operator-over-future-operand(open C03 finding)', labels)
         h = F.horizon(lhs)
         w = {v: [float(x) for x in case['trace'][v]] for v in feed}
         ol = run_dt_on('out = ' + show(lhs), feed, w, pastify=True)
